@@ -8,6 +8,7 @@ a wildcard is not a violation).  The leaves of these models are untyped; Element
 Deciding scope: cm.two_level_models() and cm.variant_models(), both classes; disagreements recorded on the unchanged tree
 are listed one by one in baseline/C15_instances.json (two root causes, see known_findings.json).
 """
+import itertools
 from . import cm
 from .common import pmap, load_instances, result, part
 from .C01 import _cls, _tuplify
@@ -103,14 +104,58 @@ def check_edc(tier, seed):
                   exhaustive=exhaustive, samples=[dict(model=cm.show(edc_struct(*sel[0])))], distinct=decided, notes=f'{decided} (model, class) pairs have unambiguous attribution and are decided')
 
 
+# ---------------------------------------------------------------- substitution-group heads as leaves
+def subst_models():
+    from .C01 import SUBST
+    occ = cm.OCC[:4]
+    for k in ('seq', 'cho'):
+        for a, b in itertools.permutations(['h', 'n', 'k', 'z'], 2):
+            for o1 in occ:
+                for o2 in occ[:2]:
+                    yield (k, [(a, o1), (b, o2)], (1, 1))
+                    if o1 == (0, 1): yield (k, [(a, o1), ('z', (0, 1)), (b, o2)], (1, 1))
+
+
+def subst_eval(args):
+    m, ver = args
+    import xmlschema
+    from .C01 import SUBST, SUB_GLOBALS
+    k, leaves, o = m
+    tag = {'seq': 'sequence', 'cho': 'choice'}[k]
+    body = f'<xs:{tag}{cm.occ_attr(o)}>' + ''.join(f'<xs:element ref="{n}"{cm.occ_attr(oc)}/>' for n, oc in leaves) + f'</xs:{tag}>'
+    # a reference to an element stands for the choice of the elements that may substitute it; attribution is to the PARTICLE (the reference)
+    SUB = dict(SUBST, k={'k'})
+    det = cm.upa_ok((k, [('cho', [('e', c, (1, 1)) for c in sorted(SUB[n])], oc) if len(SUB[n]) > 1 else ('e', n, oc) for n, oc in leaves], o), ver, ) if True else None
+    # within one reference the alternatives are one particle: a model whose only ambiguity is inside one expanded choice does not occur, the members are distinct names
+    try: _cls(ver)(f'<xs:schema {cm.XS}><xs:element name="r"><xs:complexType>{body}</xs:complexType></xs:element>{SUB_GLOBALS}</xs:schema>'); built = True
+    except xmlschema.XMLSchemaModelError: built = False
+    except xmlschema.XMLSchemaException as e: built = 'error:' + type(e).__name__
+    if built is True and not det: return dict(model=m, ver=ver, status='accepted-but-ambiguous')
+    if built is False and det: return dict(model=m, ver=ver, status='rejected-but-deterministic')
+    if built not in (True, False): return dict(model=m, ver=ver, status=str(built))
+    return None
+
+
+def check_subst(tier, seed):
+    models = list(subst_models())
+    jobs = [(m, ver) for m in models for ver in ('1.0', '1.1')]
+    res = pmap(subst_eval, jobs)
+    fails = [dict(case=dict(subst=True, model=r['model'], version=r['ver']), observed=r['status'], required='model error <=> two references can claim the same child (a head claims its substitutes)') for r in res if r]
+    return result('C15.substitution_group_leaves', f'{len(models)} models over references to a head, a member with substitutes, a terminal member and an unrelated element (two and three particles) x 2 classes',
+                  len(jobs), fails, exhaustive=True, samples=[dict(model=str(models[0]))])
+
+
 def run(tier, seed, open_findings):
     known = load_instances('C15_instances.json')
     return [check(list(cm.two_level_models()), tier, seed, known, 'C15.two_level_models', 4, open_findings),
             check(list(cm.two_level_models_rev()), tier, seed, known, 'C15.two_level_models_rev', 4, open_findings),
-            check(list(cm.variant_models()), tier, seed, known, 'C15.variant_models', 1, open_findings), check_edc(tier, seed)]
+            check(list(cm.variant_models()), tier, seed, known, 'C15.variant_models', 1, open_findings), check_edc(tier, seed), check_subst(tier, seed)]
 
 
 def replay(check_name, case):
+    if case.get('subst'):
+        k, leaves, o = case['model']; r = subst_eval(((k, [(n, tuple(oc)) for n, oc in leaves], tuple(o)), case['version']))
+        return dict(ok=r is None, observed=r, required='model error <=> not deterministic')
     if 'spec' in case:
         sp = case['spec']; r = edc_eval(((sp[0], sp[1], sp[2], tuple(tuple(o) for o in sp[3]), tuple(sp[4]) if sp[4] else None), case['version']))
         return dict(ok=not r, observed=r, required='different types: model error')
